@@ -151,7 +151,8 @@ pub mod indirection {
     }
 
     pub fn return_type(var_type: Type) -> Type {
-        var_type.mut_element_type().unwrap()
+        // the operand is a cell, or - once a constant condition was folded away - of type `!`
+        var_type.mut_element_type().unwrap_or(Type::Never)
     }
 }
 
